@@ -5,7 +5,7 @@ CONTRACT_MODULES = ['ppoly', 'splines', 'adjoint']
 LEVEL = 'proof'
 TRUSTED = ['forward-mode differentiation rules (+, -, *, constants) applied to the spec energy integral and the spec Hermite pieces',
            'adjoint-state theorem with zero multipliers (envelope theorem): when the right-hand side of the adjoint system vanishes, the total derivative is the direct part']
-ASSUMPTIONS = ['positive durations']
+ASSUMPTIONS = ['positive durations', 'a built spline: every clause of the preconditions of the analytic-gradient functions is, text for text, a postcondition of update() (meta-check precondition_established_by_update)']
 UNDECIDED_CLAUSES = ['getEnergyGrad() only assembles the three proved parts (frame/shape contract)']
 CLASSES = ['CubicSplineND', 'QuinticSplineND', 'SepticSplineND']
 
@@ -24,6 +24,17 @@ def tasks(tier):
                     T.append(Task(cls, 'getEnergyGradBoundary', 0, cfg, label='DIM=%d,coord=%d' % (D, d), gen_options={'focus': d},
                                   pins={'trajectory___num_coeffs_': {'CubicSplineND': 4, 'QuinticSplineND': 6, 'SepticSplineND': 8}[cls]}))
     return T
+
+
+def extra_checks(tier, workdir):
+    jobs = []
+    for cls in CLASSES:
+        for m in ('getEnergyGradTimes', 'getEnergyGradInnerPoints', 'getEnergyGradBoundary'):
+            pins = {'trajectory___num_coeffs_': {'CubicSplineND': 4, 'QuinticSplineND': 6, 'SepticSplineND': 8}[cls]} if m == 'getEnergyGradBoundary' else {}
+            jobs.append(('common', 'precondition_chain', ('C06', cls, m, 0, 2, None if m == 'getEnergyGradTimes' else 0, pins)))
+    res = run_meta_jobs(jobs, workers=9)
+    return [{'name': r['oid'], 'oid': r['oid'], 'obligations': 1, 'discharged': 1 if r['status'] == 'ok' else 0, 'status': r['status'], 'detail': r.get('detail', ''),
+             'back_end': 'generator (clause texts of the verified contract instances)', 'replay': '', 'found': False} for r in res]
 
 
 def replay(result, workdir, seed):
